@@ -65,6 +65,7 @@ type Ctx struct {
 	curFailed  map[string]bool
 	probe      bool // shrinking / searching: do not count
 	probeFail  map[string]bool
+	probeDet   map[string]any // detail of each clause that failed during a probe
 	searchMode bool
 	replayMode bool
 	deadline   time.Time
@@ -191,6 +192,9 @@ func (c *Ctx) DirectF(clause string, ok bool, detail any, finding string) bool {
 		return true
 	}
 	if c.probe {
+		if !c.probeFail[clause] {
+			c.probeDet[clause] = detail
+		}
 		c.probeFail[clause] = true
 		return false
 	}
@@ -238,6 +242,9 @@ func (c *Ctx) Corr(fn string, impl any, model any) bool {
 	}
 	clause := "corr:" + c.P.ID + "." + fn
 	if c.probe {
+		if !c.probeFail[clause] {
+			c.probeDet[clause] = map[string]any{"impl": json.RawMessage(a), "model": json.RawMessage(b)}
+		}
 		c.probeFail[clause] = true
 		return false
 	}
@@ -377,6 +384,7 @@ var shrinkers = map[string]func(kind string, raw []byte) [][]byte{}
 func (c *Ctx) stillFails(kind string, raw []byte, clause string) bool {
 	c.probe = true
 	c.probeFail = map[string]bool{}
+	c.probeDet = map[string]any{}
 	saveK, saveR := c.curKind, c.curRaw
 	c.curKind, c.curRaw = kind, raw
 	func() {
@@ -410,6 +418,9 @@ func (c *Ctx) shrink(f Failure) Failure {
 			}
 			if c.stillFails(f.Kind, cand, f.Clause) {
 				cur = cand
+				if d, ok := c.probeDet[f.Clause]; ok {
+					f.Detail = d // the detail of the shrunk case, not of the original one
+				}
 				progressed = true
 				break
 			}
